@@ -597,7 +597,7 @@ impl Prop for P {
             },
             Tier::Thorough => Plan {
                 workers: 16,
-                cases_per_worker: 120000,
+                cases_per_worker: 300000,
                 timeout_s: 14400,
                 max_shrink_iters: 2000,
             },
